@@ -87,3 +87,35 @@ Proof. intros H. rewrite forallb_forall in H. apply H. Qed.
 
 Lemma path_eqb_refl p : path_eqb p p = true.
 Proof. induction p as [|x p IH]; cbn [path_eqb]; [reflexivity|]. now rewrite String.eqb_refl, IH. Qed.
+
+(* ------------------------------------------------------------------ str.strip() *)
+Fixpoint all_ws (s : string) : bool := match s with EmptyString => true | String c r => is_ws c && all_ws r end.
+
+Lemma lstrip_ws a x : all_ws a = true -> lstrip (a ++ x) = lstrip x.
+Proof. induction a as [|c a IH]; cbn [all_ws String.append lstrip]; [reflexivity|]. intros H. apply andb_prop in H. destruct H as [-> H]. now apply IH. Qed.
+
+Lemma rstrip_ws t b : all_ws b = true -> rstrip (t ++ b) = rstrip t.
+Proof.
+  intros Hb. induction t as [|c t IH]; cbn [String.append rstrip].
+  - induction b as [|d b IHb]; cbn [rstrip]; [reflexivity|]. cbn [all_ws] in Hb. apply andb_prop in Hb. destruct Hb as [Hd Hb].
+    rewrite (IHb Hb). now rewrite Hd.
+  - now rewrite IH.
+Qed.
+
+Lemma lstrip_all_ws b : all_ws b = true -> lstrip b = "".
+Proof. induction b as [|d b IH]; cbn [lstrip all_ws]; [reflexivity|]. intros H. apply andb_prop in H. destruct H as [-> H]. now apply IH. Qed.
+
+(* a rendered line = whitespace indentation + text + trailing whitespace: strip gives the text back *)
+Lemma strip_render a t b :
+  all_ws a = true -> all_ws b = true -> (match t with String c _ => is_ws c | EmptyString => false end) = false ->
+  strip (a ++ t ++ b) = rstrip t.
+Proof.
+  intros Ha Hb Ht. unfold strip. rewrite (lstrip_ws a _ Ha).
+  destruct t as [|c t]; cbn [String.append].
+  - now rewrite (lstrip_all_ws b Hb).
+  - cbn [lstrip]. rewrite Ht. exact (rstrip_ws (String c t) b Hb).
+Qed.
+
+(* whitespace-only lines are blank *)
+Lemma strip_blank s : all_ws s = true -> strip s = "".
+Proof. intros H. unfold strip. now rewrite (lstrip_all_ws s H). Qed.
